@@ -267,6 +267,78 @@ fn expected_mask(region: &str, before: &[u8], cntl: u8, m0: u8, m1: u8) -> Optio
 
 /// "a full acknowledgement has taken effect exactly as commanded, any rejection changed nothing,
 /// unambiguously invalid requests are rejected" — for frames carrying one request (or one LinkADR block)
+/// A downlink with several commands: every maximal run of LinkADRReq is one block, judged by its
+/// own (identical) answers — acknowledged with all three bits: the mask in force becomes the
+/// block's mask folded from the mask in force BEFORE the block; otherwise nothing of the block
+/// survives (in particular not into a later block of the same downlink). The mask after the downlink
+/// must be the one obtained this way from the mask before it.
+fn check_blocks(region: &str, reqs: &[(u8, Vec<u8>)], answers: &[(u8, Vec<u8>)], before: &crate::oracle::Snap, after: &crate::oracle::Snap) -> Result<(), String> {
+    use crate::oracle::*;
+    let fixed = crate::mac::is_fixed(region);
+    let nmask = if fixed { 9 } else { 2 };
+    if !reqs.iter().any(|r| r.0 == 0x03) {
+        return Ok(());
+    }
+    // commands that may touch the mask by themselves (a created channel is switched on), or an
+    // answer list cut by the 15-octet rule: not judged here
+    if !fixed && reqs.iter().any(|r| r.0 == 0x07) {
+        return Ok(());
+    }
+    let cids = expected_answer_cids(region, reqs);
+    if cids.len() != answers.len() || cids.iter().zip(answers.iter()).any(|(c, a)| *c != a.0) {
+        return Ok(());
+    }
+    // an empty bandwidth group may have been re-enabled by the uplink between the snapshots
+    if fixed && (before.mask[..8].iter().all(|b| *b == 0) || before.mask[8] == 0) {
+        return Ok(());
+    }
+    let mut cur = before.mask.clone();
+    let mut ai = 0usize;
+    let mut i = 0usize;
+    while i < reqs.len() {
+        let answered = match reqs[i].0 {
+            0x03 | 0x05 | 0x06 | 0x08 => true,
+            0x07 | 0x0a => !fixed,
+            _ => false,
+        };
+        if reqs[i].0 != 0x03 {
+            if answered {
+                ai += 1;
+            }
+            i += 1;
+            continue;
+        }
+        let start = i;
+        while i < reqs.len() && reqs[i].0 == 0x03 {
+            i += 1;
+        }
+        let block = &reqs[start..i];
+        let ans = &answers[ai..ai + block.len()];
+        ai += block.len();
+        if ans.iter().any(|a| a.1 != ans[0].1) {
+            return Err("linkadr-block-not-answered-with-identical-copies".into());
+        }
+        if ans[0].1.first() == Some(&7) {
+            let mut m = Some(cur.clone());
+            for r in block {
+                let cntl = (r.1[3] >> 4) & 7;
+                if chmask_cntl_rfu(region, cntl) {
+                    return Ok(());
+                }
+                m = m.and_then(|x| expected_mask(region, &x, cntl, r.1[1], r.1[2]));
+            }
+            match m {
+                Some(x) => cur = x,
+                None => return Ok(()),
+            }
+        }
+    }
+    if after.mask[..nmask] != cur[..nmask] {
+        return Err(format!("linkadr-blocks-mask={} expected={}", hex(&after.mask[..nmask]), hex(&cur[..nmask])));
+    }
+    Ok(())
+}
+
 fn check_effect(region: &str, reqs: &[(u8, Vec<u8>)], before: &crate::oracle::Snap, after: &crate::oracle::Snap) -> Result<(), String> {
     use crate::oracle::*;
     let fixed = crate::mac::is_fixed(region);
@@ -276,7 +348,7 @@ fn check_effect(region: &str, reqs: &[(u8, Vec<u8>)], before: &crate::oracle::Sn
     }
     let all_adr = !reqs.is_empty() && reqs.iter().all(|r| r.0 == 0x03);
     if reqs.len() != 1 && !all_adr {
-        return Ok(());
+        return check_blocks(region, reqs, &answers, before, after);
     }
     let same_cfg = before.dr == after.dr && before.txp == after.txp && before.off == after.off && before.rx2dr == after.rx2dr && before.rx2f == after.rx2f && before.rx1d == after.rx1d;
     let nmask = if fixed { 9 } else { 2 };
@@ -737,6 +809,13 @@ pub fn run(tier: &str, seed: u64, dir: &str) {
             h.snap().send(1, false, &[0x77]).timeout().snap().send(1, false, &[0x78]).timeout().snap();
             let op = h.done();
             sink.case(&op, &eval(&op), "answers-across-rxc", true);
+        }
+    }
+    // two LinkADRReq blocks in one downlink, the first rejected after widening the mask
+    for region in REGIONS {
+        for k in 0..(if thorough { 24 } else { 6 }) {
+            let op = two_blocks_history("C08", &mut rng, region, k);
+            sink.case(&op, &eval(&op), "linkadr-two-blocks", true);
         }
     }
     // device level: both front-ends with the scripted radio (see adevgen::add_dev_classes)
